@@ -237,12 +237,18 @@ def run_dump(out, prop, tier, seed, only_slices=None, only_formulas=None):
         if only_slices and label not in only_slices:
             continue
         cfg = DUMP_CFG.format(nsea=NSEA[fmt], fmt=fmt, dom=dom, keep=keep)
-        mc = cfg + 'INIT DInit\nNEXT DNext\nINVARIANT DTypeOK\n' + ''.join('INVARIANT %s\n' % f for f in FORMULAS) + 'INVARIANT Export\n'
-        res = tlc.run('MC_MibDump', 'g.cfg', files={'g.cfg': mc}, timeout=6000, deadlock=True, coverage=True)
-        cov = out.extra.setdefault('action_coverage', {})
-        for a, (d_, t_) in res.coverage.items():
-            cov[a] = cov.get(a, 0) + t_
-        out.add_tlc(res, 'MibDump/' + label)
+        if cap:
+            # sampled slice: TLC only enumerates its worlds (one state each); the sampled worlds are run to their end, with
+            # the formulas as invariants, by the trace specification below.  Slices without cap are model-checked in full.
+            mc = cfg + 'INIT DInit\nNEXT NoStep\nINVARIANT ExportWorldInit\n'
+            res = tlc.run('MC_MibDump', 'g.cfg', files={'g.cfg': mc}, timeout=6000)
+        else:
+            mc = cfg + 'INIT DInit\nNEXT DNext\nINVARIANT DTypeOK\n' + ''.join('INVARIANT %s\n' % f for f in FORMULAS) + 'INVARIANT Export\n'
+            res = tlc.run('MC_MibDump', 'g.cfg', files={'g.cfg': mc}, timeout=6000, deadlock=True, coverage=True)
+            cov = out.extra.setdefault('action_coverage', {})
+            for a, (d_, t_) in res.coverage.items():
+                cov[a] = cov.get(a, 0) + t_
+        out.add_tlc(res, 'MibDump/' + label + ('(worlds enumerated)' if cap else ''))
         scen = res.exports
         if not scen:
             out.machinery_errors.append('slice %s exported nothing' % label)
@@ -271,9 +277,12 @@ def run_dump(out, prop, tier, seed, only_slices=None, only_formulas=None):
         with open(path, 'w') as fh:
             json.dump(traces, fh)
         tcfg = cfg.replace('Dom <- ' + dom, 'Dom <- Dom_usage').replace('Keep <- ' + keep, 'Keep <- KeepAll') + \
-            'INIT TInit\nNEXT TNext\nINVARIANT Report\n'
-        vres = tlc.run('MibDumpTrace', 't.cfg', files={'t.cfg': tcfg}, env={'TRACE_FILE': path}, workers=8, timeout=6000)
+            'INIT TInit\nNEXT TNext\nINVARIANT Report\nINVARIANT DTypeOK\n' + ''.join('INVARIANT %s\n' % f for f in FORMULAS)
+        vres = tlc.run('MibDumpTrace', 't.cfg', files={'t.cfg': tcfg}, env={'TRACE_FILE': path}, workers=8, timeout=6000, deadlock=True, coverage=True)
         out.add_tlc(vres, 'MibDumpTrace/' + label)
+        cov = out.extra.setdefault('action_coverage', {})
+        for a, (d_, t_) in vres.coverage.items():
+            cov[a] = cov.get(a, 0) + t_
         os.unlink(path)
         verdicts = {v['id']: v for v in vres.exports}
         for t in traces:
